@@ -73,7 +73,24 @@ pub fn run_h(cfg: &str, preds: &str, ops: &str, oracle: &str, fails: &mut Vec<(S
         }
         return errs.join(",");
     }
-    crate::sent::run_hist(&built, &models, &flags, ops, oracle, fails)
+    let res = crate::sent::run_hist(&built, &models, &flags, ops, oracle, fails);
+    if oracle == "c08" && !res.contains("panic") {
+        // the probe (everything from the last update_raw on) also on predictors that have never been used: a predictor is
+        // an immutable value, so what it was used for before must not matter either
+        let all: Vec<&str> = ops.split(',').collect();
+        if let Some(i) = all.iter().rposition(|o| o.starts_with("raw:")) {
+            let fresh_preds: Vec<Option<Predictor>> = preds.split('!').map(|sp| build_pred(sp).1.ok()).collect();
+            if fresh_preds.iter().all(|p| p.is_some()) {
+                let mut dummy = vec![];
+                let fresh = crate::sent::run_hist(&fresh_preds, &models, &flags, &format!("F{}", all[i..].join(",")), "", &mut dummy);
+                let (a, b) = (res.rsplit(',').next().unwrap_or(""), fresh.rsplit(',').next().unwrap_or(""));
+                if a != b && a.contains(';') && b.contains(';') {
+                    fails.push(("C08".into(), format!("after the history the probe observes {a}, but a fresh sentence with never-used predictors observes {b}")));
+                }
+            }
+        }
+    }
+    res
 }
 
 /// C01 oracle on the final sentence: scores = brute-force spec, label = (score > 0), nothing unknown
